@@ -115,6 +115,8 @@ class Engine(object):
         if field not in self.h0:
             if field == '$LEN':
                 self.h0[field] = z3.Const('H0_LEN', LenArr)
+            elif field == '$OFF':
+                self.h0[field] = z3.Const('H0_OFF', LenArr)
             elif field == '$ELEM':
                 self.h0[field] = z3.Const('H0_ELEM', ElemArr)
             elif field == '$DMAP':
@@ -163,6 +165,7 @@ class Engine(object):
     def new_list(self, st, items, cls=list):
         r = self.new_ref(st, cls)
         st.heap['$LEN'] = z3.Store(self.harr(st, '$LEN'), r, z3.IntVal(len(items)))
+        st.heap['$OFF'] = z3.Store(self.harr(st, '$OFF'), r, z3.IntVal(0))
         inner = z3.K(IntS, ABSENT)
         for i, it in enumerate(items):
             inner = z3.Store(inner, i, it.t)
@@ -178,8 +181,13 @@ class Engine(object):
     def list_len(self, st, r):
         return z3.Select(self.harr(st, '$LEN'), r)
 
+    def list_off(self, st, r):
+        """lists are windows into their element array: element i lives at index OFF + i (pop(0) and slicing move
+        the window instead of copying)"""
+        return z3.Select(self.harr(st, '$OFF'), r)
+
     def list_elem(self, st, r, i):
-        return z3.Select(z3.Select(self.harr(st, '$ELEM'), r), i)
+        return z3.Select(z3.Select(self.harr(st, '$ELEM'), r), self.list_off(st, r) + i)
 
     def dict_get(self, st, r, k):
         return z3.Select(z3.Select(self.harr(st, '$DMAP'), r), k)
